@@ -40,3 +40,16 @@ Theorem C09_clean_without_plan_touches_nothing :
 Proof. exact clean_frame_fatal. Qed.
 
 Check C09_build_frame.
+
+
+(* ---- under every interleaving of the rule threads at their cache operations (Model/Fine.v) ---- *)
+From Ruler Require Import Inv Ideal BuildSpec InvFacts C01Hist C01Facts C11Facts C02Sym Sched Fine FineFacts FineCorStep FineCor FineStatus FineCorFinal FineCorExamples.
+Local Open Scope nat_scope.
+
+Theorem C09_frame_in_every_state_of_every_interleaving : forall (w1 : world sym) (tbl : table sym) pack hists blobs t' ch,
+  take_blobs sym SContent tbl (worker_paths pack) = (blobs, t') ->
+  Forall node_confined (p_nodes pack) ->
+  let st := frun_sym pack blobs hists ch (fn_start_sym w1 t' pack) in
+  forall p, ~ In p (plan_targets pack) -> fget (fn_world st) p = fget w1 p.
+Proof. exact fine_frame_sym. Qed.
+Print Assumptions C09_frame_in_every_state_of_every_interleaving.
